@@ -16,6 +16,7 @@ import tornado.auth as ta
 # one representative per character class of RFC 5849 3.6
 ALPHA = ("a", "~", "B", "=", "&", "%", " ", "+", "/", "é", "€")
 NA = len(ALPHA)
+VSMALL = ("a", "=", "é", " ", "%")       # values used when there are two parameters
 METHODS = ("GET", "get", "pOsT")
 URLS = ("http://example.com/p", "HTTP://Example.COM/p", "http://example.com:80/p", "https://example.com:443/p",
         "http://example.com:8080/p", "https://EXAMPLE.com:80/P", "http://example.com/a%20b/~c",
@@ -140,8 +141,8 @@ def pre_params(which: bool, np: int, ln1: int, n1a: int, n1b: int, lv1: int, v1a
         return False
     if np == 1 and (n2a != 0 or lv2 != 0 or v2a != 0):
         return False
-    if np == 2 and (ln1 > 1 or lv1 > 1):
-        return False
+    if np == 2 and (ln1 > 1 or lv1 > 1 or v1a >= P.NV2 or v2a >= P.NV2):
+        return False                      # two parameters: values from the first NV2 entries of VSMALL
     if lv2 == 0 and v2a != 0:
         return False
     return in_shard(n1a + NA * (np - 1))
@@ -149,8 +150,8 @@ def pre_params(which: bool, np: int, ln1: int, n1a: int, n1b: int, lv1: int, v1a
 
 @harness(
     pre=pre_params,
-    quick=dict(LN=2, LV=1, timeout=120),
-    thorough=dict(LN=2, LV=2, timeout=900),
+    quick=dict(LN=2, LV=1, NV2=3, timeout=120),
+    thorough=dict(LN=2, LV=2, NV2=5, timeout=900),
     nshards=dict(quick=22, thorough=22),
     reach=["name_needs_escaping", "order_differs_after_encoding", "plain"],
     units=_UNITS, stubs=_STUBS, outside=_OUT, classify=classify,
@@ -158,13 +159,18 @@ def pre_params(which: bool, np: int, ln1: int, n1a: int, n1b: int, lv1: int, v1a
 def h_params(which: bool, np: int, ln1: int, n1a: int, n1b: int, lv1: int, v1a: int, v1b: int,
              n2a: int, lv2: int, v2a: int):
     """1 parameter (name <= LN, value <= LV letters) or 2 parameters (first: <= 1/<= 1 letters, second: a
-    1-letter name and <= 1 letter value) plus the fixed protocol parameter oauth_nonce."""
+    1-letter name; both values "" or one of NV2 representatives) plus the fixed parameter oauth_nonce."""
     n1 = _word(ln1, n1a, n1b)
-    v1 = _word(lv1, v1a, v1b)
-    params = {"oauth_nonce": "x1", n1: v1}
-    if np == 2:
+    if np == 1:
+        v1 = _word(lv1, v1a, v1b)
+        params = {"oauth_nonce": "x1", n1: v1}
+    else:
+        # with two parameters the interesting dimension is the ORDER of the two names (all 12 x 11
+        # combinations); the values are "" or one of the first NV2 entries of VSMALL
+        v1 = VSMALL[v1a] if lv1 == 1 else ""
+        params = {"oauth_nonce": "x1", n1: v1}
         n2 = ALPHA[n2a]
-        params[n2] = _word(lv2, v2a, 0)
+        params[n2] = VSMALL[v2a] if lv2 == 1 else ""
     names = [k for k in params]
     if any(ref_enc(k) != k for k in names):
         reached("name_needs_escaping")
